@@ -9,6 +9,11 @@ type stringInput struct {
 }
 
 func newStringInput(s string) comb.Input {
+	// An empty string has no current rune: it is the end of input.
+	if len(s) == 0 {
+		return nil
+	}
+
 	return &stringInput{
 		pos:   0,
 		runes: []rune(s),
